@@ -31,7 +31,7 @@ META = dict(
     extra=dict(c_functions_encoded=["arch/linux/users.c:psutil_users", "arch/linux/proc.c:psutil_proc_ioprio_get", "arch/linux/proc.c:psutil_proc_ioprio_set", "_psutil_posix.c:psutil_net_if_mtu",
                                     "_psutil_posix.c:psutil_net_if_flags", "_psutil_posix.c:psutil_posix_getpriority", "_psutil_posix.c:psutil_posix_setpriority", "_psutil_common.c:psutil_check_pid_range",
                                     "arch/linux/mem.c:psutil_linux_sysinfo", "arch/linux/disk.c:psutil_disk_partitions", "_psutil_posix.c:psutil_convert_ipaddr", "_psutil_posix.c:psutil_net_if_addrs",
-                                    "arch/linux/proc.c:psutil_proc_cpu_affinity_get", "arch/linux/proc.c:psutil_proc_cpu_affinity_set"],
+                                    "arch/linux/proc.c:psutil_proc_cpu_affinity_get", "arch/linux/proc.c:psutil_proc_cpu_affinity_set", "arch/linux/net.c:psutil_net_if_duplex_speed", "arch/linux/net.c:psutil_ethtool_cmd_speed"],
                ir="clang -S -emit-llvm -O0 -Xclang -disable-O0-optnone with the Linux macros of setup.py, regenerated from /repo on every run"),
     labels=["memory-in-bounds", "cstring-within-record", "string-within-field", "users-fields", "ioprio-packing", "ioprio-roundtrip", "strncpy-in-bounds", "partitions-filter", "users-tuple", "net_if_stats", "net_if_addrs", "address-text", "ifaddrs-tuples", "no-uninitialised-read"],
 )
@@ -415,6 +415,99 @@ def nic_name_c(ctx, fn, n):
     res = I.run("@" + fn, [cir.NULL, cir.NULL])
     report(ctx, I, ["memory-in-bounds", "strncpy-in-bounds"], lambda m: model_assignment(m, "c", n))
     ctx.external("nic-paths-completed", bool(res))
+
+
+@harness("C17.duplex_speed_c", quick=[dict(n=n, fails=f) for n in (4, 16, 40) for f in (False, True)], thorough=[dict(n=n, fails=f) for n in (0, 1, 15, 16, 17, 64) for f in (False, True)])
+def duplex_speed_c(ctx, n, fails):
+    """psutil_net_if_duplex_speed (+ the inlined-by-hand psutil_ethtool_cmd_speed, which is executed, not stubbed): the name copy stays
+    inside ifr_name, the ethtool buffer handed to the kernel is the whole zeroed struct, and (duplex, speed) are the kernel's duplex byte
+    and speed_hi:speed word (0 when unknown or above INT_MAX); EOPNOTSUPP/EINVAL give (DUPLEX_UNKNOWN, 0), other errors raise"""
+    mod = module("arch/linux/net.c")
+    chars = [ctx.int(f"c{i}", 1, 255) for i in range(n)]
+    lo_, hi_, dup_, err_ = ctx.int("speed", 0, 65535), ctx.int("speed_hi", 0, 65535), ctx.int("duplex", 0, 255), ctx.int("errno", 1, 133)
+    mk = (lambda nm, v, w: z3.BitVec(nm, w)) if ctx.symbolic else (lambda nm, v, w: z3.BitVecVal(v, w))
+    lo, hi, dup, err = mk("speed", lo_, 16), mk("speed_hi", hi_, 16), mk("duplex", dup_, 8), mk("errno", err_, 32)
+
+    def mkstr(I, st):
+        init = {i: (z3.BitVec(f"c{i}", 8) if ctx.symbolic else z3.BitVecVal(chars[i], 8)) for i in range(n)}
+        init[n] = z3.BitVecVal(0, 8)
+        k_ = st.new_obj("nic_name", n + 1, init)
+        if ctx.symbolic:
+            for i in range(n):
+                st.pc.append(init[i] != 0)
+        return cir.Ptr(k_, 0, 0, n + 1)
+
+    state = {"strings": [mkstr]}
+    stubs = nic_stubs(state)
+
+    def ioctl(I, st, w, c, fd, req, ifr=None, *rest):
+        data = I.load(st, cir.Ptr(ifr.obj, ifr.off + 16), 8, True)          # ifr.ifr_data
+        o = st.objs[data.obj]
+        I.oblige(st, data.off + 44 <= o.size, "ioctl(SIOCETHTOOL): the kernel writes a struct ethtool_cmd (44 bytes): store out of bounds of the buffer handed over")
+        cmd = I.load(st, cir.Ptr(data.obj, data.off), 4, False)
+        st.log.append(("ethtool", req, cmd, [z3.simplify(I.byte_at(st, data.obj, data.off + i)) for i in range(4, 44)]))
+        if fails:
+            return z3.BitVecVal(-1, 32)
+        I.store(st, cir.Ptr(data.obj, data.off + 12), 2, lo)
+        I.store(st, cir.Ptr(data.obj, data.off + 14), 1, dup)
+        I.store(st, cir.Ptr(data.obj, data.off + 28), 2, hi)
+        return z3.BitVecVal(0, 32)
+
+    def errno_loc(I, st, w, c):
+        k_ = st.new_obj("errno", 4)
+        st.objs[k_].cells[0] = (4, err)
+        return cir.Ptr(k_, 0, 0, 4)
+
+    def build(I, st, w, c, fmt, *a):
+        st.log.append(("build", cir.const_cstr(I, st, fmt), a))
+        return cir.newobj(I, st, "list")
+
+    def oserr(I, st, w, c, *a):
+        st.log.append(("raise",))
+        return cir.NULL
+
+    stubs.update({"@ioctl": ioctl, "@__errno_location": errno_loc, "@llvm.memset.p0i8.i64": _memset, "@Py_BuildValue": build, "@psutil_PyErr_SetFromOSErrnoWithSyscall": oserr,
+                  "@socket": lambda I, st, w, c, *a: z3.BitVecVal(5, 32), "@close": lambda I, st, w, c, *a: z3.BitVecVal(0, 32)})
+    I = cir.Interp(mod, stubs)
+    st0 = cir.State()
+    if ctx.symbolic:
+        st0.pc.append(z3.And(err >= 1, err <= 133))
+    res = I.run("@psutil_net_if_duplex_speed", [cir.NULL, cir.NULL], st=st0)
+    ok, why, bad_st = bool(res), "no completed path", None
+    EOPNOTSUPP, EINVAL = 95, 22
+    for st, ret in res:
+        eth = [x for x in st.log if x[0] == "ethtool"]
+        builds = [x for x in st.log if x[0] == "build"]
+        raised = isinstance(ret, cir.Ptr) and ret.obj is None
+        if len(eth) != 1 or not I.oblige(st, z3.And(eth[0][1] == 0x8946, eth[0][2] == 1), "duplex_speed: the request is not SIOCETHTOOL / ETHTOOL_GSET") or any(not (z3.is_bv_value(b) and b.as_long() == 0) for b in eth[0][3]):
+            ok, why, bad_st = False, "the ethtool buffer is not a zeroed ETHTOOL_GSET request", st
+            continue
+        if not fails:
+            word = z3.Concat(hi, lo)
+            want_speed = z3.If(z3.Or(word == 0xFFFFFFFF, z3.UGT(word, 0x7FFFFFFF)), z3.BitVecVal(0, 32), word)
+            if len(builds) != 1 or raised or not I.oblige(st, z3.And(builds[0][2][0] == z3.ZeroExt(24, dup), builds[0][2][1] == want_speed), "duplex_speed: (duplex, speed) are not the kernel's duplex byte and speed_hi:speed word"):
+                ok, why, bad_st = False, "(duplex, speed) differ from the ethtool record", st
+        else:
+            soft = I.sat(st, z3.Or(err == EOPNOTSUPP, err == EINVAL))[0] == "sat" and I.sat(st, z3.Not(z3.Or(err == EOPNOTSUPP, err == EINVAL)))[0] == "unsat"
+            if soft:
+                if len(builds) != 1 or raised or not I.oblige(st, z3.And(builds[0][2][0] == 0xFF, builds[0][2][1] == 0), "duplex_speed: EOPNOTSUPP/EINVAL must give (DUPLEX_UNKNOWN, 0)"):
+                    ok, why, bad_st = False, "EOPNOTSUPP/EINVAL must give (DUPLEX_UNKNOWN, 0)", st
+            elif builds or not raised:
+                ok, why, bad_st = False, "any other ioctl error must raise", st
+
+    def assign(m):
+        out = model_assignment(m, "c", n)
+        if m is not None:
+            vals = {d.name(): m[d] for d in m.decls()}
+            for nm in ("speed", "speed_hi", "duplex", "errno"):
+                if nm in vals:
+                    out[nm] = vals[nm].as_long()
+        return out
+
+    fid = [f for f in I.findings if f[0].startswith("duplex_speed:")]
+    ctx.external("duplex-speed", ok and not fid, assign(fid[0][1]) if fid else assign(I.sat(bad_st)[1]) if bad_st is not None else {}, detail=fid[0][0] if fid else why)
+    I.findings = [f for f in I.findings if f not in fid]
+    report(ctx, I, ["memory-in-bounds", "strncpy-in-bounds"], assign)
 
 
 @harness("C17.small_c", quick=[dict(fn=f) for f in ("psutil_posix_getpriority", "psutil_posix_setpriority", "psutil_check_pid_range", "psutil_linux_sysinfo")])
